@@ -67,6 +67,25 @@ where
                     Some(k2) if k2 == *k => {}
                     other => out.oracle.push(format!("{name}: serde round trip of index {i} gave {other:?}")),
                 }
+                // ... in every position serde can put a key: as a map key (JSON writes it as a string), inside a
+                // sequence, and through the self-describing `Value`
+                {
+                    let mut m = std::collections::BTreeMap::new();
+                    m.insert(*k, i);
+                    let back = serde_json::to_string(&m).ok().and_then(|s| serde_json::from_str::<std::collections::BTreeMap<K, usize>>(&s).ok());
+                    if back.as_ref() != Some(&m) {
+                        out.oracle.push(format!("{name}: serde round trip of index {i} as a map key gave {back:?}"));
+                    }
+                    let v = vec![*k, *k];
+                    let back = serde_json::to_string(&v).ok().and_then(|s| serde_json::from_str::<Vec<K>>(&s).ok());
+                    if back.as_ref() != Some(&v) {
+                        out.oracle.push(format!("{name}: serde round trip of index {i} inside a sequence gave {back:?}"));
+                    }
+                    let back = serde_json::to_value(k).ok().and_then(|v| serde_json::from_value::<K>(v).ok());
+                    if back != Some(*k) {
+                        out.oracle.push(format!("{name}: serde round trip of index {i} through serde_json::Value gave {back:?}"));
+                    }
+                }
                 // raw value is index + 1
                 if let Ok(raw) = serde_json::to_string(k) {
                     if raw.parse::<u128>().ok() != Some(i as u128 + 1) {
